@@ -6,6 +6,7 @@ import (
 	"bytes"
 	"crypto/sha256"
 	"encoding/hex"
+	"errors"
 	"fmt"
 	"os"
 	"path/filepath"
@@ -314,9 +315,18 @@ func Utime(p string, ns int64) error {
 	return unix.UtimesNanoAt(unix.AT_FDCWD, p, ts, unix.AT_SYMLINK_NOFOLLOW)
 }
 
+// ErrRootNotDir: the directory to snapshot has been replaced by something else.
+var ErrRootNotDir = errors.New("root is not a directory (any more)")
+
 // Snapshot lists everything below dir with an independent lstat walk.
 func Snapshot(dir string) (Tree, error) {
 	var out Tree
+	// never open what is not a directory (a fifo would block, a symlink would lead elsewhere)
+	if fi, err := os.Lstat(dir); err != nil {
+		return nil, err
+	} else if !fi.IsDir() {
+		return nil, &os.PathError{Op: "snapshot", Path: dir, Err: ErrRootNotDir}
+	}
 	var rec func(rel string) error
 	rec = func(rel string) error {
 		f, err := os.Open(filepath.Join(dir, rel))
